@@ -89,3 +89,27 @@ package nsqd
 //@   requires n != nil && n.httpsListener != nil && httpsServer != nil
 //@   ensures[one-https-server-and-its-result-reported] r7ServeReturns == old(r7ServeReturns) + 1 && r7NsqdExitReported == r7ServeResult
 //@   ensures[tls-server-on-the-tls-listener] r5HSrvListener == old(n.httpsListener) && dyntype(r5HSrvHandler) == typetag("*httpServer") && unbox(r5HSrvHandler, "*httpServer") == old(httpsServer)
+
+// ---- the remaining small literals of nsqd (round 8) --------------------------------------------------------------------------------------
+// resizePool$1 (one per scan worker, started through the wait group): runs the worker on the three channels of THIS queueScanLoop; the
+// worker's precondition is an obligation at the Wrap call in resizePool.
+//@ func (n *NSQD) resizePool$1()
+//@   props C04 C01
+//@   requires n != nil
+// NewChannel$1 / NewTopic$1 (the log adapters handed to the disk queue): one Logf call with the daemon's CURRENT logger and level, the level of
+// the message as the disk queue gave it. That a logger is configured is an assumption about the options (nsqd.New installs one when none is
+// given) - the disk queue, a library, is the only caller.
+//@ func NewChannel$1(level diskqueue.LogLevel, f string, args ...interface{})
+//@   props C05
+//@   nochan
+//@   requires nsqd != nil
+//@   requires[env-logger-configured] curOpts(nsqd).Logger != nil
+//@   ensures[filtered-below-the-configured-level] curOpts(nsqd).LogLevel > level ==> r5JLogOutputs == old(r5JLogOutputs)
+//@   ensures[one-line-otherwise] curOpts(nsqd).LogLevel <= level ==> r5JLogOutputs == old(r5JLogOutputs) + 1 && r5JLogOutputOn == curOpts(nsqd).Logger
+//@ func NewTopic$1(level diskqueue.LogLevel, f string, args ...interface{})
+//@   props C05
+//@   nochan
+//@   requires nsqd != nil
+//@   requires[env-logger-configured] curOpts(nsqd).Logger != nil
+//@   ensures[filtered-below-the-configured-level] curOpts(nsqd).LogLevel > level ==> r5JLogOutputs == old(r5JLogOutputs)
+//@   ensures[one-line-otherwise] curOpts(nsqd).LogLevel <= level ==> r5JLogOutputs == old(r5JLogOutputs) + 1 && r5JLogOutputOn == curOpts(nsqd).Logger
